@@ -33,6 +33,8 @@ func c15leanTy(t reflect.Type) string {
 		return ".int"
 	case t == reflect.TypeOf(true):
 		return ".bool"
+	case t == reflect.TypeOf(float64(0)):
+		return ".float"
 	case t == reflect.TypeOf(map[string]interface{}{}):
 		return ".map"
 	case t == reflect.TypeOf(&gedcom.Document{}):
@@ -92,6 +94,18 @@ func c15nodeTypes() map[string]reflect.Type {
 		doc, _ := gedcom.NewDocumentFromString("0 ZZUNKNOWN v\n")
 		add(doc.Nodes()[0])
 	}()
+	return res
+}
+
+// c15tagOfKind maps a registered tag to the node type the decoder gives it.
+func c15tagOfKind() map[string]string {
+	res := map[string]string{}
+	for _, t := range gedcom.Tags() {
+		if k := probeKind(t.Tag()); k != "panic" && k != "error" {
+			res[t.Tag()] = k
+		}
+	}
+	res["ZZUNKNOWN"] = probeKind("ZZUNKNOWN")
 	return res
 }
 
@@ -300,6 +314,54 @@ func init() {
 			fmt.Fprintf(&b, "  (%q, [%s])%s\n", k, strings.Join(names, ", "), sep)
 		}
 		b.WriteString("]\n\n")
+
+		// --- tables the accessor menu needs
+		b.WriteString("/-- gedcom.Countries, each with its lower-cased form (PlaceNode.Country matches suffixes) -/\n")
+		b.WriteString("def countries : List (String × String) := [\n")
+		for i, c := range gedcom.Countries {
+			sep := ","
+			if i == len(gedcom.Countries)-1 {
+				sep = ""
+			}
+			fmt.Fprintf(&b, "  (%q, %q)%s\n", c, strings.ToLower(c), sep)
+		}
+		b.WriteString("]\n\n")
+		var plain []string
+		for _, k := range kinds {
+			if k == "IndividualNode" || k == "FamilyNode" {
+				continue
+			}
+			ok := true
+			for _, v := range []string{"zz1", "3 Sep 1943", "@I1@", "A /B/ C"} {
+				func() {
+					defer func() {
+						if recover() != nil {
+							ok = false
+						}
+					}()
+					for tag, kk := range c15tagOfKind() {
+						if kk != k {
+							continue
+						}
+						doc, err := gedcom.NewDocumentFromString("0 @F@ FAM\n1 " + tag + " " + v + "\n")
+						if err != nil || len(doc.Nodes()) == 0 || len(doc.Nodes()[0].Nodes()) == 0 || doc.Nodes()[0].Nodes()[0].String() != v {
+							ok = false
+						}
+						break
+					}
+				}()
+			}
+			if ok {
+				plain = append(plain, fmt.Sprintf("%q", k))
+			}
+		}
+		b.WriteString("/-- node types whose String() is the node's value (probe: three values through the decoder) -/\n")
+		fmt.Fprintf(&b, "def stringIsValue : List String := [%s]\n\n", strings.Join(plain, ", "))
+		func() {
+			defer func() { recover() }()
+			d, _ := gedcom.NewDocumentFromString("0 HEAD\n")
+			fmt.Fprintf(&b, "/-- Document.MaxLivingAge of a decoded document -/\ndef maxLivingAge : Nat := %d\n\n", int(d.MaxLivingAge))
+		}()
 
 		// --- flags
 		rec := c15probeClass("Combine(1)") != "panic"
